@@ -182,6 +182,8 @@ static void mode_random(uint64_t seed, int reps, int nmax) {
             int row = g.below(n);
             for (ptrdiff_t p = Z->ptr[row]; p < Z->ptr[row+1]; ++p) Z->val[p] = 0;     // an all-zero row: singular for every order
             sky_both<double>(*Z, fs, "zerorow", false, 0);
+            // ... and every row in turn for small systems, so that the row the ordering puts first (the first pivot) is among them
+            if (n <= 16) for (int rw = 0; rw < n; ++rw) { auto Y = std::make_shared<crsd>(*S); for (ptrdiff_t p = Y->ptr[rw]; p < Y->ptr[rw+1]; ++p) Y->val[p] = 0; sky_both<double>(*Y, fs, "zerorow", false, 0); }
         }
     }
 }
@@ -309,6 +311,7 @@ template <class T> static void qr_case(vr::rng &g, int rows, int cols, int order
     std::vector<T> A((size_t)rows * cols);
     auto at = [&](int i, int j) -> T& { return order == 0 ? A[(size_t)i * cols + j] : A[(size_t)i + (size_t)j * rows]; };
     for (int i = 0; i < rows; ++i) for (int j = 0; j < cols; ++j) at(i, j) = cls == 3 ? T(0) : (cls == 4 ? T(g.range(-3, 3)) : qrt<T>::mk(g));
+    if (cls == 5) for (int i = 0; i < rows; ++i) for (int j = i + 1; j < cols; ++j) at(i, j) = T(0);     // lower trapezoidal: full rank, columns of A^H already zero below the diagonal
     if (cls == 1 && cols >= 2) { int c = g.below(cols), d = (c + 1 + g.below(cols - 1)) % cols; for (int i = 0; i < rows; ++i) at(i, c) = T(2) * at(i, d); }
     if (cls == 1 && rows >= 2 && cols < 2) { for (int i = 0; i < rows; ++i) at(i, 0) = T(0); }
     if (cls == 2) { int c = g.below(cols); for (int i = 0; i < rows; ++i) at(i, c) = T(0); if (cols > 2 && g.coin()) for (int i = 0; i < rows; ++i) at(i, 0) = T(0); }
@@ -328,7 +331,7 @@ template <class T> static void qr_case(vr::rng &g, int rows, int cols, int order
         o.b("lowzero", lowzero).b("qtail", qtail);
     }
     // solve (full-rank classes only): least squares (tall / square) or minimum norm (wide)
-    bool full = (cls == 0 || cls == 4);
+    bool full = (cls == 0 || cls == 4 || cls == 5);
     ld cnd = full ? cond2(D) : 0;
     if (full && cnd < 1e6L) {
         std::vector<T> W(A), b(rows), x(cols, T(0));
@@ -423,8 +426,8 @@ static void mode_qr(uint64_t seed, bool th) {
     for (int rows = 1; rows <= smax; ++rows) for (int cols = 1; cols <= smax; ++cols) for (int order = 0; order < 2; ++order) {
         bool dense_grid = th || (rows <= 5 && cols <= 5) || ((rows * 7 + cols * 3 + (int)seed) % 4 == 0);
         if (!dense_grid) continue;
-        for (int cls = 0; cls < 5; ++cls) {
-            if (!th && cls >= 1 && (rows + cols + cls) % 2) continue;
+        for (int cls = 0; cls < 6; ++cls) {
+            if (!th && cls >= 1 && cls != 5 && (rows + cols + cls) % 2) continue;
             qr_case<double>(g, rows, cols, order, cls);
             if (cls != 4 || th) qr_case<std::complex<double>>(g, rows, cols, order, cls);
         }
